@@ -198,6 +198,9 @@ def run(P, R, tier):
     getitem_small_scope(P, R, ga)
     selection_shortcuts(P, R, ga)
     common.scalar_dtype_from_data(P, R, 'C16.g')
+    nrw = common.rewrap_children_zero_offset(P, R, 'C16.a')
+    R.floor('C16.a', 're-wrapped list arrays', nrw, 4)
+    common.masked_offsets(P, R, 'C16.d')
     common.scratch_per_iteration(P, R, 'C16.b', ['spatialpandas.geometry._algorithms.intersection', 'spatialpandas.geometry._algorithms.bounds', 'spatialpandas.geometry._algorithms.measures', 'spatialpandas.geometry.point', 'spatialpandas.geometry.baselist'])
     common.forward(P, R, 'C11', ['C11.g'], 'C16.h', 'a GeoSeries / GeoDataFrame built from an existing series holds the same element under every label', floor=1)
     common.forward(P, R, 'C01', ['C01.n'], 'C16.b', 'a selection answers intersects_bounds like its source: every row is decided by the exact kernel, not by a shortcut on the array\'s own total_bounds', floor=10)
